@@ -213,6 +213,19 @@ pub fn gen_case(ch: &mut Choices, p: &Profile) -> SimCase {
             }
             continue;
         }
+        if ch.chance(1, 14) {
+            // a laggard: everybody but one node moves on for a while, then that node receives nothing but the commit votes
+            // (or nothing but the timeout votes) it missed, and only afterwards everything else
+            let x = 1u16 << ch.below(6);
+            actions.push(Action::Flush { mask: !x, kinds: KIND_ALL, limit: 1000, rounds: 1 + ch.below(3) as u8 });
+            if ch.bool() {
+                actions.push(Action::Timeout { mask: !x });
+                actions.push(Action::Flush { mask: !x, kinds: KIND_ALL, limit: 1000, rounds: 2 });
+            }
+            actions.push(Action::Flush { mask: x, kinds: ch.pick(&[2u8, 2, 4, 6]), limit: 1000, rounds: 1 });
+            actions.push(all(1));
+            continue;
+        }
         if p.variants && ch.chance(1, 8) {
             // the leaders propose but nothing is delivered yet; a copy of the newest message (normally that proposal) re-signed by
             // somebody else / carrying another signature reaches a node before the original does
